@@ -5,15 +5,11 @@
 TIE_EXTRA = {
     "append": {
         "gen": ["IRAst.v", "Names.v", "AppendGen.v"],
-        "vo": "proofs/GenAppend_protocol.vo",
-        "theorems": ["gen_crd_assembly_shape", "gen_crd_assembly_none", "gen_pos_assembly_shape",
-                     "gen_pos_allocation_shape", "gen_declarations_c", "gen_declarations_compute", "gen_declarations_dc", "gen_declarations_cc", "gen_cleanup_c", "gen_cleanup_cc", "gen_cleanup_cd", "gen_cleanup_compute",
-                     "exec_grow_double", "exec_grow_max", "crd_assembly_refines",
-                     "append_refines", "pos_assembly_refines", "pos_allocation_double_refines",
-                     "pos_allocation_max_refines", "append_all_refines", "run_segs_refines", "emitted_protocol_inv"],
+        "vo": "proofs/GenAppend_all.vo",
+        "theorems": ["gen_crd_assembly_shape", "gen_crd_assembly_none", "gen_pos_assembly_shape", "gen_pos_allocation_shape", "gen_declarations_all", "gen_cleanup_all", "gen_declarations_compute_all", "gen_compute_fragments_certified", "gen_declarations_c", "gen_declarations_dc", "gen_declarations_cc", "gen_cleanup_c", "gen_cleanup_cc", "gen_cleanup_cd", "gen_cleanup_compute", "gen_bucket_declarations_shape", "gen_bucket_declarations_none", "gen_bucket_assignment_shape", "exec_grow_double", "exec_grow_max", "crd_assembly_refines", "append_refines", "pos_assembly_refines", "pos_allocation_double_refines", "pos_allocation_max_refines", "run_segs_refines", "emitted_protocol_inv", "decl_level_refines", "decl_vals_refines", "cleanup_rest_refines", "pos_shrink_refines", "cleanup_vals_refines", "run_segs_refines_frame", "vector_life", "vector_life_wf"],
         "source": "iteration_graph/_write_sparse_ir.py, iteration_graph/outputs/{_append,_bucket}.py, ir/ast.py (helper methods), "
                   "kernel_type.py (ir/_builder.py pinned by hash)",
-        "model": "coq/model/Append.v (grow_double, grow_max, crd_assembly, append, pos_assembly, append_all, run_segs) "
+        "model": "coq/model/Append.v (decl_level, grow_double, grow_max, crd_assembly, append, pos_assembly, append_all, run_segs, cleanup, run_level) "
                  "through the IR abstract machine coq/spec/IRSem.v",
     },
 }
